@@ -27,7 +27,7 @@ static int L = 3;                       /* cap on text length for growing operat
 static char SIG[8]; static int NS;      /* alphabet */
 
 /* ------------------------------------------------------------------ model */
-typedef struct { T o; char m[LMAX + 1]; int n; } st_t;
+typedef struct { T o; char m[LMAX + 1]; int n; long base; } st_t;
 
 enum { K_NEW, K_NEW_PTR, K_NEW_BUFF, K_NEW_NUM,
        K_APP_OBJ, K_PRE_OBJ, K_APP_PTR, K_PRE_PTR, K_APP_CH, K_PRE_CH,
@@ -103,7 +103,7 @@ static void op_name(int i, char *b, size_t n)
     }
 }
 
-static void *fresh(void) { st_t *s = calloc(1, sizeof *s); return s; }
+static void *fresh(void) { st_t *s = calloc(1, sizeof *s); s->base = mc_live_bytes(); return s; }
 
 static const char *shape_of(st_t *s)
 {
@@ -360,8 +360,20 @@ static void canon(void *vs, char *b, size_t n)
     long slack = o->size - o->len - 1; if (slack > 2) slack = 2;
     snprintf(b, n, "\"%s\" len=%ld slack=%ld", e, (long) o->len, slack);
 }
-static void teardown(void *vs) { st_t *s = vs; if (s->o) F(del)(s->o); free(s); }
+static int g_warm;
+static void teardown(void *vs)
+{
+    st_t *s = vs; if (s->o) F(del)(s->o);
+#ifdef VERIF_LEAKRUN
+    if (g_warm) { free(s); return; }
+    /* the same histories as a C06 run: whatever the operations (refused ones included) allocated is gone once the object is deleted */
+    long left = mc_live_bytes() - s->base;
+    if (left) FAIL(CLS, "leak", "after the history", "%ld bytes still allocated after the object was deleted", left);
+#endif
+    free(s);
+}
 
+static void warm(void *ctx) { (void) ctx; g_warm = 1; st_t *w = fresh(); for (int op = 0; op < NOPS; op++) if (enabled(w, op)) { apply(w, op); break; } probe(w); teardown(w); g_warm = 0; }
 static const mc_sys SYS = { CLS, 0, op_name, fresh, enabled, apply, probe, canon, teardown };
 
 /* ------------------------------------------------------------------ stream / descriptor constructors (E2 x E3) */
@@ -512,7 +524,11 @@ static void sp_case(uint64_t idx, void *ctx)
 
 int main(int argc, char **argv)
 {
+#ifdef VERIF_LEAKRUN
+    mc_init("C06", argc, argv);
+#else
     mc_init("C01", argc, argv);
+#endif
     L = (int) mc_arg_int("L", mc_thorough() ? 5 : 3);
     NS = (int) mc_arg_int("sigma", mc_thorough() ? 4 : 3);
     memcpy(SIG, "aB 7", 4); SIG[NS] = 0;
@@ -520,12 +536,15 @@ int main(int argc, char **argv)
     mc_info("alphabet", CLS ": sigma={%s} L=%d opcodes=%d (constructors, append/prepend obj/ptr/char, splice(_from_ptr) over window(n)^2 x {NULL,\"\",\"aB\"}, trim, reverse, case, clear, sprintf x4, done, re-init); "
             "probe: index/rindex, find(_from_ptr), substr(_to_ptr) window^2, cmp family, to_num, to_float, dup, show", SIG, L, NOPS);
     mc_sys sys = SYS; sys.n_ops = NOPS;
+#ifdef VERIF_LEAKRUN
+    mc_guarded(CLS, "warm-up: construct, run every query once, delete (one-time stdio/libc allocations must precede the first baseline)", warm, NULL);
+#endif
     int maxd = (int) mc_arg_int("depth", 40);
     if (!mc_arg("only", NULL) || !strcmp(mc_arg("only", ""), "e1")) mc_e1_run(&sys, maxd);
     g_k = (int) mc_arg_int("k", mc_thorough() ? 6 : 4);
     g_dev = (int) mc_arg_int("dev", 2);
     if (!mc_arg("only", NULL) || !strcmp(mc_arg("only", ""), "ctor"))
         mc_e2_level(CLS "_stream_ctor", g_k * 10 + g_dev, (uint64_t) NSRC * 6 * NLENS, sc_case, sc_desc, NULL);
-    { int maxn = (int) mc_arg_int("spmax", mc_thorough() ? 9000 : 700); mc_e2_level(CLS "_sprintf_len", maxn, (uint64_t) (maxn + 1) * 3, sp_case, sp_desc, NULL); }
+    if (!mc_arg("only", NULL)) { int maxn = (int) mc_arg_int("spmax", mc_thorough() ? 9000 : 700); mc_e2_level(CLS "_sprintf_len", maxn, (uint64_t) (maxn + 1) * 3, sp_case, sp_desc, NULL); }
     return mc_finish();
 }
